@@ -55,8 +55,34 @@ type funcEvidence struct {
 // everything they call by contract (transitively), the lemmas they use and all spec functions with contracts.
 func (w *World) PropertyFunctions(prop string) (tagged []string, all []string) {
 	tag := map[string]bool{}
+	// streams / protocols tagged with the property: every function or closure bound to them is tagged
+	taggedProto := map[string]bool{}
 	for _, c := range w.CS.Order {
-		if c.Kind != "func" && c.Kind != "lemma" && c.Kind != "spec" {
+		if c.Kind == "stream" || c.Kind == "protocol" {
+			for _, cl := range c.Requires {
+				for _, p := range cl.Props {
+					if p == prop {
+						taggedProto[strings.TrimPrefix(strings.TrimPrefix(c.Key, "stream."), "protocol.")] = true
+					}
+				}
+			}
+		}
+	}
+	for _, c := range w.CS.Order {
+		if c.Kind != "func" && c.Kind != "closure" {
+			continue
+		}
+		if taggedProto[c.Yields] {
+			tag[c.Key] = true
+		}
+		for _, p := range c.ParamProto {
+			if taggedProto[p] {
+				tag[c.Key] = true
+			}
+		}
+	}
+	for _, c := range w.CS.Order {
+		if c.Kind != "func" && c.Kind != "lemma" && c.Kind != "spec" && c.Kind != "closure" {
 			continue
 		}
 		has := false
@@ -92,16 +118,23 @@ func (w *World) PropertyFunctions(prop string) (tagged []string, all []string) {
 		}
 		c := w.CS.ByKey[k]
 		fi := w.Funcs[k]
+		if c != nil && c.Kind == "closure" {
+			fi = w.closureInfo(k)
+		}
 		if c == nil || fi == nil || fi.Decl == nil {
 			return
 		}
-		if c.Kind != "func" && c.Kind != "lemma" && c.Kind != "spec" {
+		if c.Kind != "func" && c.Kind != "lemma" && c.Kind != "spec" && c.Kind != "closure" {
 			return
 		}
 		if c.Flags["assumed"] {
 			return
 		}
 		seen[k] = true
+		// the closures a function creates are part of it
+		for i := range fi.LitList {
+			visit(fmt.Sprintf("%s#%d", k, i+1))
+		}
 		for callee := range w.callees(fi) {
 			visit(callee)
 			// helpers without contracts are inlined: follow their callees too
